@@ -311,15 +311,15 @@ ADDED = {
     'C03': 'No failure is swallowed in validators and resolvers: no try around a loop whose handler does not raise, no handler that only passes / returns None outside a table of confirmed ones, no `x or None`. In the branch where a value has just been found None / false no attribute of it is read (an optional validator is consulted when present, not when absent). Validators and assertion parts that an object keeps and traverses in both validation rounds are never one-shot iterators (generator expressions, map, filter handed to a constructor that stores them).',
     'C05': 'Every way the replacer can be constructed is analysed (a flag set in the constructor selects a path): on each the text is substituted by the compiled pattern itself.',
     'C07': 'The location path of an element is the inclusion chain followed by the element (explicit chain). The document parser and the act-phase parser recognise a section header by one and the same predicate (resolved callee identity).',
-    'C09': 'The kind of quoting of a token is read from the first character of its source text. A rest-of-line string (`:> TEXT`) is exactly one reading of the rest of the line, optionally stripped; where the scanner has found a reference the fragments end with the symbol fragment of its name on every path.',
+    'C09': 'A lexer that has raised is replaced by a new one in the handler. The kind of quoting of a token is read from the first character of its source text. A rest-of-line string (`:> TEXT`) is exactly one reading of the rest of the line, optionally stripped; where the scanner has found a reference the fragments end with the symbol fragment of its name on every path.',
     'C10': 'Exit codes are compared with 0 by == / != only (whole impls tree). The code that runs the action to check does not read the text of stdin itself (a program used as text source would run twice).',
-    'C11': 'No swallowed failures in the env / timeout / settings modules (a change meant for both sets is made to both). The act set reaches the process unchanged through AtcExecutionInputAdv.resolve (None stays None); an environment emptied by `env unset` is never treated like "inherit" (no truth test of an optional mapping); REC of the settings records (the getter of a kept parameter hands out the kept value).',
-    'C12': 'A path built from a path-or-string symbol gets the default relativity of the argument being parsed at every construction; the transitive part of a reference restriction examines every reference of every definition (fold with two checks per element, going on after a passing element).',
+    'C11': 'The expression that recognises ${NAME} references (regular-expression syntax tree) accepts every name env can set. No swallowed failures in the env / timeout / settings modules (a change meant for both sets is made to both). The act set reaches the process unchanged through AtcExecutionInputAdv.resolve (None stays None); an environment emptied by `env unset` is never treated like "inherit" (no truth test of an optional mapping); REC of the settings records (the getter of a kept parameter hands out the kept value).',
+    'C12': 'What is given for -rel-cd is the result of reading the current directory on every path (also when the reading fails). A path built from a path-or-string symbol gets the default relativity of the argument being parsed at every construction; the transitive part of a reference restriction examines every reference of every definition (fold with two checks per element, going on after a passing element).',
     'C13': 'The limits of union / intersection are a decision table over which limits the operands have (unlimited, lower, upper, finite; symbolic numbers): unlimited as soon as one / only when both operands are, otherwise min / max of exactly the two limits. Optional numbers are never tested by truth value (0 is a limit).',
     'C14': 'The attribute caching the text as a file is assigned None or the result of the call that writes the whole file. What as_lines hands out is a one-shot iterator, never a list; no one-shot iterator is handed to a constructor that keeps and traverses it; no open() passes newline=, encoding= or errors=; the two outcomes of freezing through the spooled buffer (kept in memory / moved to disk) must treat line ends alike - they do not (KNOWN FINDING D20).',
     'C15': 'Depth limits of 0 are limits (no truth test of an optional number); makers that create through package helpers are followed; the recursive listing schedules a directory independently of what the walk has seen; in `matches` (non-full) a listed file that does not satisfy its matcher decides the verdict on every path.',
     'C16': 'Every glob match is examined by the path resolver (none filtered away first). JUnit <error> / <failure> elements are recognised by role (construction of the XML element, helpers interpreted); every raising file-system query on a path from a suite file is inside a handler for OSError that raises the suite error (found defect D19, fixed); wildcards are matched by pathlib (names beginning with a dot are matched).',
-    'C17': 'The [conf] section of a suite is partitioned: every element is in exactly one of the suite part and the part contributed to the cases. Every suite of a hierarchy is resolved against the default handling setup of the reading environment (value origin through parameters and call sites, not the name of the method); the case file and the --suite file of a standalone run are the files as named (no resolution of links); no method writes a container bound in a class body (whole tree).',
+    'C17': 'A suite that cannot be read fails the standalone run (may-raise fork); the default suite is looked for beside the case file as named. The [conf] section of a suite is partitioned: every element is in exactly one of the suite part and the part contributed to the cases. Every suite of a hierarchy is resolved against the default handling setup of the reading environment (value origin through parameters and call sites, not the name of the method); the case file and the --suite file of a standalone run are the files as named (no resolution of links); no method writes a container bound in a class body (whole tree).',
     'C18': 'No attribute of a value just found None / false is read (whole tree). Handlers that turn a parse failure into a syntax error need no current line of a source that may have been consumed to its end (members whose docstring states the precondition, followed through the functions the source is handed to); the optional positions of re.error are not used as numbers unguarded.',
     'C19': 'Every handler of the process executor ends by raising its exception (no exit code is made up for a process that never ran); no `x or None` / swallowing handlers in the timeout and process modules. Every instruction environment the executor builds carries settings made from the live instruction settings at that moment (not a stored snapshot); a timeout of 0 is a timeout (no truth test of an optional number).',
     'C20': 'A name that is not an instruction of the phase / section asked for fails the help request (may-raise fork of the lookup). Each predefined part of the manual is the fixed root target of exactly one section. No memo shared by all sections / entities (no method writes a class-level container); the name lookup behind `help X NAME` is evaluated over lists of 1-3 symbolic keys and every relation of the pattern to each key: an identical key wins wherever it stands.',
